@@ -92,10 +92,17 @@ def oracle(sc, out):
             found.append(("grain-deactivated-after-stop-returned", "grain %s deactivated after Stop returned" % who, {"grain": g}))
     # handlers
     release = t.get(("driver", "release_all"), 10 ** 18)
+    starts_after = {}
     for e in ev:
         if e["kind"] == "recvB" and e["seq"] > stop_e:
-            found.append(("receive-started-after-stop-returned", "%s: a Receive started (seq %d) after Stop returned (seq %d)" % (e["who"], e["seq"], stop_e), {"who": e["who"]}))
-            break
+            starts_after[e["who"]] = starts_after.get(e["who"], 0) + 1
+    for who, c in sorted(starts_after.items()):
+        if c >= 2:
+            # one handler start after Stop can be the worker that read the behaviour before reset(); a
+            # backlog that keeps being handled cannot
+            found.append(("backlog-handled-after-stop", "%s: %d handlers STARTED after Stop returned (seq %d): the queued backlog of a stopped actor keeps being handled" % (who, c, stop_e), {"who": who, "starts": c}))
+        else:
+            found.append(("receive-started-after-stop-returned", "%s: a Receive started after Stop returned (seq %d)" % (who, stop_e), {"who": who}))
     open_recv = {}
     for e in ev:
         if e["seq"] > stop_e:
@@ -125,7 +132,7 @@ def run(ctx):
     scs = U.gen_scenarios(ctx, True)
     with open(os.path.join(ctx.work, "c17_in.jsonl"), "w") as f:
         for c in scs:
-            f.write(json.dumps({k: c[k] for k in ("n", "k", "actions", "expect")}) + "\n")
+            f.write(json.dumps({k: c[k] for k in ("n", "k", "gated", "pass_grains", "actions", "expect")}) + "\n")
     outp = os.path.join(ctx.work, "c17_out.jsonl")
     for pth in (outp, os.path.join(ctx.work, "c17_gate_out.jsonl")):
         if os.path.exists(pth):
@@ -157,10 +164,10 @@ def run(ctx):
         for sig, what, detail in oracle(sc, o):
             if seen.get(sig, 0) < 1:
                 seen[sig] = 1
-                ctx.violation(sig, what, {"scenario": {k: sc[k] for k in ("n", "k", "actions")}, "detail": detail, "events": o["events"],
+                ctx.violation(sig, what, {"scenario": {k: sc[k] for k in ("n", "k", "gated", "pass_grains", "actions")}, "detail": detail, "events": o["events"],
                                           "how": "TestVerifC17Stop on a real actor system"})
         if sc["n"] >= 4 and any(d[0] == "stop" for d in sc["actions"]):
-            nontrivial.add(canon_hash({k: sc[k] for k in ("n", "k", "actions")}))
+            nontrivial.add(canon_hash({k: sc[k] for k in ("n", "k", "gated", "pass_grains", "actions")}))
         pop.append((sc["n"] - 1, sc["k"]))
     mism = None
     if outs and len(outs) == len(scs):
@@ -168,10 +175,10 @@ def run(ctx):
         for sc, o in zip(scs, outs):
             ds = ";".join(U.coq_action(d) for d in sc["actions"])
             exp = ";".join("(%d,%s)" % (st["f"], nll(st["o"])) for st in o["steps"])
-            items.append("(%d,%d,[%s],[%s])" % (sc["n"], sc["k"], ds, exp))
+            items.append("(%s,%d,%d,[%s],[%s])" % (nl(sc["gated"]), sc["n"], sc["k"], ds, exp))
         body = """From Coq Require Import List. Import ListNotations.
 From GV Require Import C09.StopModel C17.Model.
-Definition cases : list (nat * nat * list daction * list (nat * list (list nat))) := [
+Definition cases : list (list nat * nat * nat * list daction * list (nat * list (list nat))) := [
 %s
 ].
 Definition diffs := combine (seq 0 (length cases)) (map (scenario_diff true) cases).
@@ -190,7 +197,7 @@ Eval vm_compute in summary.
                 detail = []
                 for ci, si in re.findall(r"\((\d+), (\d+)\)", m.group(3)):
                     ci, si = int(ci), int(si)
-                    detail.append({"scenario": {k: scs[ci][k] for k in ("n", "k", "actions")}, "first_diverging_action_index": si,
+                    detail.append({"scenario": {k: scs[ci][k] for k in ("n", "k", "gated", "pass_grains", "actions")}, "first_diverging_action_index": si,
                                    "implementation_showed": outs[ci]["steps"][si] if si < len(outs[ci]["steps"]) else None,
                                    "generator_expected": scs[ci]["expect"][si] if si < len(scs[ci]["expect"]) else None})
                 ctx.tie_broken("system-stop model vs real actor system (observation after every driver action)", {"mismatching_scenarios": mism, "first": detail})
@@ -206,9 +213,9 @@ Eval vm_compute in summary.
         "evaluations": n_steps,
         "distinct_nontrivial": len(nontrivial),
         "rule": "scenario non-trivial = at least 3 user actors below the guardian and a Stop; distinct by hash of the canonical scenario",
-        "scenarios": len(scs), "steps": n_steps, "action_histogram": hist, "model_mismatches": mism, "gate_probe": [{k: g_[k] for k in ("recv_during_shutdown", "checked_running", "system_stopping_seen")} for g_ in gate],
+        "scenarios": len(scs), "steps": n_steps, "wait_timeouts": sum(1 for o_ in outs for s_ in o_["steps"] if s_.get("timeout")), "action_histogram": hist, "model_mismatches": mism, "gate_probe": [{k: g_[k] for k in ("recv_during_shutdown", "checked_running", "system_stopping_seen")} for g_ in gate],
         "populations_actors_grains": pop[:12],
-        "samples": [{k: scs[0][k] for k in ("n", "k", "actions")}, {k: scs[-1][k] for k in ("n", "k", "actions")}],
+        "samples": [{k: scs[4][k] for k in ("n", "k", "gated", "pass_grains", "actions")}, {k: scs[-1][k] for k in ("n", "k", "gated", "pass_grains", "actions")}],
         "theorems": THEOREMS,
     })
 
